@@ -46,6 +46,21 @@ class NativeFunc:
         return self
 
 
+class NativeCM:
+    """A context manager supplied by a rule: enter() -> value, exit() -> None."""
+
+    def __init__(self, enter=None, exit=None, name="cm"):
+        self.enter, self.exit, self.name = enter, exit, name
+
+    def __deepcopy__(self, memo):
+        return self
+
+
+class SuperProxy:
+    def __init__(self, obj, mod, cls):
+        self.obj, self.mod, self.cls = obj, mod, cls
+
+
 class ClassFunc:
     """staticmethod / plain function looked up on a class object (FmtStr.from_str)."""
 
@@ -107,6 +122,9 @@ class OFolder(Folder):
         if self_obj is not None:
             a = [self_obj] + a
         bind_arguments(self, node, a, kw, env)
+        if self_obj is not None and getattr(func, "cls", None) is not None:
+            env["__class__"] = (func.module.name, func.cls.name)
+            env["__self__"] = self_obj
         self._level += 1
         try:
             outs = self._interp().run_function(node, env)
@@ -168,7 +186,7 @@ class OFolder(Folder):
     # ---- overridden value operations -------------------------------------------------------
     @staticmethod
     def _plain(v):
-        if isinstance(v, (Obj, BoundMethod, LocalFunc, ClassFunc, EnumMember, NativeFunc)):
+        if isinstance(v, (Obj, BoundMethod, LocalFunc, ClassFunc, EnumMember, NativeFunc, NativeCM, SuperProxy)):
             return
         Folder._plain(v)
 
@@ -203,6 +221,20 @@ class OFolder(Folder):
     def v_attr(self, v, attr):
         if isinstance(v, Obj):
             return self.obj_attr(v, attr)
+        if isinstance(v, NativeCM) and attr in ("__enter__", "__exit__"):
+            fn = v.enter if attr == "__enter__" else v.exit
+            return NativeFunc(lambda a, k: fn() if fn is not None else None, "%s.%s" % (v.name, attr))
+        if isinstance(v, SuperProxy):
+            chain = self.src.mro(v.obj.mod, v.obj.cls)
+            names = [(m, c.name) for m, c in chain]
+            after = chain[names.index((v.mod, v.cls)) + 1:] if (v.mod, v.cls) in names else []
+            for m, c in after:
+                f = self.src.funcs.get((m, c.name + "." + attr))
+                if f is not None:
+                    return BoundMethod(v.obj, f, attr)
+            if attr == "__init__":
+                return NativeFunc(lambda a, k: None, "object.__init__")
+            raise Unknown("super().%s outside the package" % attr)
         if isinstance(v, ClassRef) and any(isinstance(b, ast.Name) and b.id in ("Enum", "IntEnum", "Flag") for b in v.node.bases):
             members = [t.id for st in v.node.body if isinstance(st, ast.Assign) for t in st.targets if isinstance(t, ast.Name)]
             if attr in members:
@@ -255,6 +287,8 @@ class OFolder(Folder):
                 if res is _Missing:
                     raise Unknown("membership in %r" % r)
             return bool(res) if isinstance(op, ast.In) else not res
+        if isinstance(op, (ast.Eq, ast.NotEq)) and (isinstance(l, (Record, NativeFunc, NativeCM)) or isinstance(r, (Record, NativeFunc, NativeCM))):
+            return (l is r) if isinstance(op, ast.Eq) else (l is not r)
         if isinstance(l, Obj) or isinstance(r, Obj):
             if isinstance(op, (ast.Eq, ast.NotEq)):
                 res = _Missing
@@ -352,7 +386,21 @@ class OFolder(Folder):
             return
         raise Unknown("delete on %r" % (base,))
 
+    def exit_context(self, cm, exc=None):
+        if isinstance(cm, NativeCM):
+            if cm.exit is not None:
+                cm.exit()
+            return
+        if isinstance(cm, Obj):
+            r = self.dunder(cm, "__exit__", exc, exc, None)
+            if r is _Missing:
+                raise Unknown("not a context manager")
+            return
+        raise Unknown("context manager %r" % (cm,))
+
     def enter_context(self, cm):
+        if isinstance(cm, NativeCM):
+            return cm.enter() if cm.enter is not None else None
         if isinstance(cm, Obj):
             r = self.dunder(cm, "__enter__")
             if r is _Missing:
@@ -374,7 +422,9 @@ class OFolder(Folder):
                 isinstance(env.get("cast"), Opaque):
             return self.expr(n.args[1], env)
         if isinstance(n, ast.Call) and isinstance(n.func, ast.Name) and n.func.id == "super":
-            raise Unknown("super()")
+            if n.args or n.keywords or not isinstance(env.get("__class__"), tuple) or not isinstance(env.get("__self__"), Obj):
+                raise Unknown("super()")
+            return SuperProxy(env["__self__"], *env["__class__"])
         try:
             return Folder.expr(self, n, env)
         except (KeyError,) as e:
@@ -600,8 +650,18 @@ class ObjInterp(BlockEval):
             bind_arguments(self.folder, f.node, list(args), kw, outs_env)
         except FoldedRaise as e:
             return [Outcome("raise", e.name, outs_env, [], [])]
+        if getattr(f, "cls", None) is not None and args and isinstance(args[0], Obj):
+            outs_env["__class__"] = (f.module.name, f.cls.name)
+            outs_env["__self__"] = args[0]
         outs = self.run_function(f.node, outs_env)
         return outs
+
+    def callm(self, obj, name, *args, **kw):
+        """Method call on a model object, resolved through the class's MRO: same result convention as call1."""
+        f = self.folder._find_method(obj, name)
+        if f is None:
+            return ("raise", "AttributeError")
+        return self.call1(f.module.name, f.qualname, obj, *args, **kw)
 
     def call1(self, module, funcname, *args, **kw):
         """Single-outcome call: ('ok', value) | ('raise', Exc) | ('opaque', why)."""
